@@ -459,4 +459,37 @@ def rule_h(ctx: Ctx) -> None:
                 'actually substituted is tested at the point of use.')
 
 
-RULES = [rule_a, rule_b, rule_c, rule_d, rule_e, rule_f, rule_g, rule_h]
+def rule_i(ctx: Ctx) -> None:
+    """A fixed value is compared in the value space *of one type*: 1 (xs:int) and true (xs:boolean) are different values of a union although Python says
+    True == 1, and 1 (int) differs from 1.0 (decimal) members likewise.  The helper every fixed-value comparison goes through therefore accepts only under an
+    identity test of the operand types - an isinstance() shortcut lets bool through as an int."""
+    rule = 'C07.i'
+    f = ctx.idx.func('xmlschema.utils.decoding.strictly_equal')
+    ctx.analysed(f.qualname)
+    g = cfg_of(ctx, f)
+    p_ = [x for x in f.params]
+    a, b = (p_ + ['obj1', 'obj2'])[:2]
+    ident = (f'type({a}) is type({b})', f'type({b}) is type({a})', f'type({a}) == type({b})')
+    from .common import bool_atoms, atom_forces
+    n = 0
+    for r in g.nodes:
+        if not (r.kind == 'return' and r.ast.value is not None):
+            continue
+        v = r.ast.value
+        if isinstance(v, ast.Constant) and v.value is False:
+            continue
+        n += 1
+        gs = guards(ctx, f, r)
+        nident = (f'type({a}) is not type({b})', f'type({b}) is not type({a})', f'type({a}) != type({b})')
+        by_guard = any(lab == 'T' and any(i_ in t for i_ in ident) and 'is not' not in t and '!=' not in t for t, lab in gs) or \
+            any(lab == 'F' and t in nident for t, lab in gs)
+        by_value = any(atom_forces(v, i_, False, False) for i_ in ident if i_ in bool_atoms(v))
+        ok = by_guard or by_value
+        ctx.ob(rule, f'strictly_equal: `return {text(v)[:50]}` can be true only for operands of the very same type', f.loc(r.ast), ok,
+               '' if ok else 'an accepting exit without the type identity test: bool is an int for isinstance(), so fixed="1" on a union of xs:int and xs:boolean accepts <flag>true</flag> '
+               '(and fixed="true" accepts 1)', key=f'strictly_equal|{text(v)[:30]}')
+    ctx.floor(rule, 'accepting exits of strictly_equal', n, 1)
+    ctx.explain('C07.i: every non-False return of utils.decoding.strictly_equal is guarded by, or conjoined with (truth table), `type(obj1) is type(obj2)`.')
+
+
+RULES = [rule_a, rule_b, rule_c, rule_d, rule_e, rule_f, rule_g, rule_h, rule_i]
